@@ -65,6 +65,8 @@ def evaluate_inprocess(spec):
     b, wd, inpath, klpath = _write(spec, "detA")
     spec_b = dict(spec)
     spec_b["conns"] = [dict(c, seed=c["seed"] + 1) for c in spec["conns"]][::-1]
+    if spec.get("container_b") is not None:
+        spec_b["container"] = spec["container_b"]      # ... and in another container (time resolution, byte order)
     if spec.get("opts_b") is not None:
         spec_b["opts"] = spec["opts_b"]        # the other run may also use other options (-p, -m, -a, -c)
     bb, _, inb, klb = _write(spec_b, "detB")
@@ -172,6 +174,9 @@ def spec_strategy(draw):
     cont = draw(st.sampled_from([None, None, None, {"spb": [1, 0]}, {"spb": [2, 1]}, {"spb": [3, 0]}, {"tsresol": 0}, {"tsresol": 3, "tsoffset": 7}]))
     if cont:
         sc["container"] = cont
+    cb = draw(st.sampled_from([None, None, {"tsresol": 9}, {"tsresol": 3, "endian": ">"}, {"tsresol": 9, "ifaces": 2}, {"fmt": "pcap", "nano": True}]))
+    if cb:
+        sc["container_b"] = cb
     return sc
 
 
